@@ -15,6 +15,10 @@ PROP = dict(
                        "gauge_zero_after_stop (after each Stop the stopped stages read 0)",
                        "totals_exact_with_live_workers (TUI and /metrics counters = number of events)",
                        "no_data_race"]),
+        dict(driver="cycles", binary="zstats", race=True, quick=24, thorough=150, shard=30, noshrink=True,
+             env={"GORACE": "exitcode=0"},
+             monitors=["gauge_equals_live_workers (all workers up, every Start/Stop cycle)",
+                       "gauge_zero_when_stop_returns (read in the statement after Stop(): decrement happens-before wg.Done)"]),
     ],
     partial="mean.go is modelled AFTER fixes/C17-mean-mutex.diff (count and sum under one mutex): the code as found is kept as "
             "mean_*_orig and refuted by C17_mean_reset_orig_refuted (reset racing add tears count/sum; reproduced on the real "
